@@ -16,6 +16,7 @@ import (
 	"bytes"
 	"context"
 	"errors"
+	"flag"
 	"fmt"
 	"net/http"
 	"os"
@@ -66,6 +67,67 @@ var coqState = map[string]string{
 	"INIT": "TInit", "WAITING": "TWaiting", "RUNNING": "TRunning", "OK": "TOk", "ERROR": "TErr", "LOST": "TLost",
 }
 
+// Coq's parser is slow on the [a; b; c] notation for big nested terms (seconds per
+// 100 kB); the case terms use explicit cons/nil, which parse an order of magnitude faster.
+func list(xs []string) string {
+	var b strings.Builder
+	for _, x := range xs {
+		b.WriteString("(cons ")
+		b.WriteString(x)
+		b.WriteByte(' ')
+	}
+	b.WriteString("nil")
+	for range xs {
+		b.WriteByte(')')
+	}
+	return b.String()
+}
+
+// Numerals are slow to interpret too: small numbers are printed as the identifiers
+// n0..n31 / z0..z9 defined in the prelude of the case file.
+const natIdents, zIdents = 32, 10
+
+func natT(x int) string {
+	if x >= 0 && x < natIdents {
+		return fmt.Sprintf("n%d", x)
+	}
+	return vf.Nat(x)
+}
+
+func zT(x int64) string {
+	if x >= 0 && x < zIdents {
+		return fmt.Sprintf("z%d", x)
+	}
+	return vf.Z(x)
+}
+
+func prelude() string {
+	var b strings.Builder
+	for i := 0; i < natIdents; i++ {
+		fmt.Fprintf(&b, "Definition n%d : nat := %d%%nat.\n", i, i)
+	}
+	for i := 0; i < zIdents; i++ {
+		fmt.Fprintf(&b, "Definition z%d : Z := %d%%Z.\n", i, i)
+	}
+	return b.String()
+}
+
+func natList(xs []int) string {
+	ss := make([]string, len(xs))
+	for i, x := range xs {
+		ss[i] = natT(x)
+	}
+	return list(ss)
+}
+
+func zList(xs []int64) string {
+	ss := make([]string, len(xs))
+	for i, x := range xs {
+		ss[i] = zT(x)
+	}
+	return list(ss)
+}
+
 var errInjected = errors.New("injected task failure")
 
 // setState is the environment's only way of changing a task: the public
@@ -103,9 +165,9 @@ func buildTasks(d *Desc) []*exec.Task {
 func graphTerm(d *Desc) string {
 	ns := make([]string, len(d.Graph))
 	for i, n := range d.Graph {
-		ns[i] = vf.App("mkT", vf.NatList(n.Deps), vf.NatList(n.Group))
+		ns[i] = vf.App("mkT", natList(n.Deps), natList(n.Group))
 	}
-	return vf.List(ns)
+	return list(ns)
 }
 
 func statesTerm(ss []string) string {
@@ -113,7 +175,7 @@ func statesTerm(ss []string) string {
 	for i, s := range ss {
 		xs[i] = coqState[s]
 	}
-	return vf.List(xs)
+	return list(xs)
 }
 
 func ids(index map[*exec.Task]int, ts []*exec.Task) []int {
@@ -177,7 +239,7 @@ func runSync(d *Desc, gen syncGen) (term string, nret int, errTouched bool) {
 			for _, t := range ids(index, st.TodoSet()) {
 				before[t] = true
 			}
-			opT, outT = vf.App("SEnq", vf.Nat(o.T)), vf.App("SNum", vf.Nat(st.Enqueue(ts[o.T])))
+			opT, outT = vf.App("SEnq", natT(o.T)), vf.App("SNum", natT(st.Enqueue(ts[o.T])))
 			if fresh {
 				// a task scheduled although one of its dependencies is in ERR
 				states := readStates(ts)
@@ -198,7 +260,7 @@ func runSync(d *Desc, gen syncGen) (term string, nret int, errTouched bool) {
 			if !valid(o.T) {
 				continue
 			}
-			opT = vf.App("SRet", vf.Nat(o.T))
+			opT = vf.App("SRet", natT(o.T))
 			if st.Return(ts[o.T]) {
 				outT = "SPanic"
 			} else {
@@ -206,13 +268,13 @@ func runSync(d *Desc, gen syncGen) (term string, nret int, errTouched bool) {
 				nret++
 			}
 		case "runnable":
-			opT, outT = "SRunnable", vf.App("STasks", vf.NatList(ids(index, st.Runnable())))
+			opT, outT = "SRunnable", vf.App("STasks", natList(ids(index, st.Runnable())))
 		case "set":
 			if !valid(o.T) || coqState[o.S] == "" {
 				continue
 			}
 			setState(ts[o.T], o.S)
-			opT, outT = vf.App("SSet", vf.Nat(o.T), coqState[o.S]), "SUnit"
+			opT, outT = vf.App("SSet", natT(o.T), coqState[o.S]), "SUnit"
 		default:
 			continue
 		}
@@ -224,18 +286,18 @@ func runSync(d *Desc, gen syncGen) (term string, nret int, errTouched bool) {
 		wait := make([]string, len(ts))
 		for i, t := range ts {
 			counts[i] = int64(st.Count(t))
-			deps[i] = vf.NatList(ids(index, st.Deps(t)))
+			deps[i] = natList(ids(index, st.Deps(t)))
 			if n, ok := st.Wait(t); ok {
-				wait[i] = vf.Some(vf.Nat(n))
+				wait[i] = vf.Some(natT(n))
 			} else {
 				wait[i] = "None"
 			}
 		}
-		dump := vf.App("mkDump", vf.NatList(ids(index, st.TodoSet())), vf.NatList(ids(index, st.PendingSet())),
-			vf.Bool(st.Done()), vf.Bool(st.HasErr()), vf.ZList(counts), vf.List(deps), vf.List(wait), statesTerm(readStates(ts)))
+		dump := vf.App("mkDump", natList(ids(index, st.TodoSet())), natList(ids(index, st.PendingSet())),
+			vf.Bool(st.Done()), vf.Bool(st.HasErr()), zList(counts), list(deps), list(wait), statesTerm(readStates(ts)))
 		steps = append(steps, vf.Tuple(opT, outT, dump))
 	}
-	return vf.App("CSync", graphTerm(d), statesTerm(d.Init), vf.List(steps)), nret, errTouched
+	return vf.App("CSync", graphTerm(d), statesTerm(d.Init), list(steps)), nret, errTouched
 }
 
 // ---------------------------------------------------------------- (ii) the real Eval in lock-step
@@ -483,14 +545,14 @@ func runEval(d *Desc, gen evalGen) (term string, stats evalStats) {
 			ctx, cancel := context.WithCancel(context.Background())
 			r.cancel = cancel
 			go c03EvalWrapper(ctx, r, roots)
-			lab = vf.App("LStart", vf.Nat(o.E))
+			lab = vf.App("LStart", natT(o.E))
 		case "set":
 			if o.T < 0 || o.T >= len(ts) || coqState[o.S] == "" {
 				continue
 			}
 			setState(ts[o.T], o.S)
 			pre[o.T] = o.S
-			lab = vf.App("LSet", vf.Nat(o.T), coqState[o.S])
+			lab = vf.App("LSet", natT(o.T), coqState[o.S])
 			for e := range outstanding {
 				if o.S == "OK" || o.S == "ERROR" || o.S == "LOST" {
 					for i, u := range outstanding[e] {
@@ -523,7 +585,7 @@ func runEval(d *Desc, gen evalGen) (term string, stats evalStats) {
 		for e, r := range evs {
 			got := ids(index, r.ex.take())
 			if ne == 1 {
-				runs = append(runs, vf.NatList(got))
+				runs = append(runs, natList(got))
 			}
 			union = append(union, got...)
 			stats.runs += len(got)
@@ -547,11 +609,11 @@ func runEval(d *Desc, gen evalGen) (term string, stats evalStats) {
 		}
 		if ne > 1 {
 			sort.Ints(union)
-			runs = []string{vf.NatList(union)}
+			runs = []string{natList(union)}
 		}
 		rs := make([]string, ne)
 		for e, x := range res {
-			rs[e] = vf.Nat(x)
+			rs[e] = natT(x)
 		}
 		// Task.consecutiveLost: with two evaluations the count depends on goroutine timing
 		// (the runner's waiter may miss a loss that the other evaluation resubmits first),
@@ -562,7 +624,7 @@ func runEval(d *Desc, gen evalGen) (term string, stats evalStats) {
 				cls = append(cls, int64(exec.VerifC03ConsecutiveLost(t)))
 			}
 		}
-		obs := vf.App("mkObs", vf.List(runs), vf.List(rs), statesTerm(readStates(ts)), vf.ZList(cls), vf.Bool(hung))
+		obs := vf.App("mkObs", list(runs), list(rs), statesTerm(readStates(ts)), zList(cls), vf.Bool(hung))
 		steps = append(steps, vf.Tuple(lab, obs))
 		if hung {
 			break
@@ -570,9 +632,9 @@ func runEval(d *Desc, gen evalGen) (term string, stats evalStats) {
 	}
 	rootss := make([]string, ne)
 	for e, r := range d.Roots {
-		rootss[e] = vf.NatList(r)
+		rootss[e] = natList(r)
 	}
-	return vf.App("CEval", graphTerm(d), statesTerm(d.Init), vf.List(rootss), vf.List(steps)), stats
+	return vf.App("CEval", graphTerm(d), statesTerm(d.Init), list(rootss), list(steps)), stats
 }
 
 // ---------------------------------------------------------------- generators
@@ -851,14 +913,42 @@ func genEvalCase(r *vf.Rand, i, ne int) Desc {
 	}
 	k := 0
 	after := -1 // events still to inject after every evaluation has returned
-	// With two evaluations a task is lost at most twice while handed out: whatever the
-	// timing, at most two waiters count a loss, so the limit of 5 is never reached and
-	// the observables stay independent of the goroutine schedule.
-	lossCap := 1 << 30
-	if ne > 1 {
-		lossCap = 2
+	// Two evaluations that both wait for the same task race when it is lost: the one
+	// whose main loop resubmits it first resets it to WAITING, and the other one's
+	// waiter goroutine may or may not have seen LOST by then (it matters for the loss
+	// counter and for when that evaluation next re-traverses its roots). Which happens
+	// is decided by goroutine timing, so the deterministic check keeps out of it: a
+	// task that is WAITING/RUNNING and needed by two live evaluations is never lost
+	// (it may still complete, fail, or be lost once it is OK). The race itself is
+	// reported by -probe2 and by C03_lost_limit_two_evaluators_refuted.
+	cones := make([]map[int]bool, ne)
+	for e := range cones {
+		cones[e] = map[int]bool{}
+		var visit func(t int)
+		visit = func(t int) {
+			for _, u := range phaseOfGraph(g, t) {
+				if cones[e][u] {
+					continue
+				}
+				cones[e][u] = true
+				for _, dep := range g[u].Deps {
+					visit(dep)
+				}
+			}
+		}
+		for _, t := range d.Roots[e] {
+			visit(t)
+		}
 	}
-	lost := make([]int, len(g))
+	racy := func(t int, started []bool, results []int) bool {
+		n := 0
+		for e := 0; e < ne; e++ {
+			if started[e] && results[e] == 0 && cones[e][t] {
+				n++
+			}
+		}
+		return n > 1
+	}
 	gen := func(states []string, started []bool, results []int, outstanding [][]int) (Op, bool) {
 		k++
 		if k > maxSteps {
@@ -907,7 +997,7 @@ func genEvalCase(r *vf.Rand, i, ne int) Desc {
 		}
 		for i := range cs {
 			c := &cs[i]
-			if c.s == "LOST" && lost[c.t] >= lossCap && (states[c.t] == "WAITING" || states[c.t] == "RUNNING") {
+			if c.s == "LOST" && (states[c.t] == "WAITING" || states[c.t] == "RUNNING") && racy(c.t, started, results) {
 				c.w = 0
 			}
 			switch env {
@@ -931,9 +1021,6 @@ func genEvalCase(r *vf.Rand, i, ne int) Desc {
 		x := r.Intn(total)
 		for _, c := range cs {
 			if x < c.w {
-				if c.s == "LOST" && (states[c.t] == "WAITING" || states[c.t] == "RUNNING") {
-					lost[c.t]++
-				}
 				return Op{K: "set", T: c.t, S: c.s}, true
 			}
 			x -= c.w
@@ -1000,10 +1087,45 @@ type quietLog struct{}
 func (quietLog) Level() log.Level                    { return log.Off }
 func (quietLog) Output(int, log.Level, string) error { return nil }
 
+// probeTwoEvaluators is a diagnostic, not part of the check (its outcome depends on
+// goroutine timing): one task, two evaluations of it, the task lost again and again
+// while handed out. It reports how often the limit of maxConsecutiveLost is bypassed
+// because the runner's waiter misses a loss that the other evaluation resubmits first.
+func probeTwoEvaluators(trials int) {
+	max := exec.VerifC03MaxConsecutiveLost()
+	bypass := 0
+	for i := 0; i < trials; i++ {
+		d := Desc{Mode: "eval", Graph: []Node{{}}, Init: []string{"INIT"}, Roots: [][]int{{0}, {0}}}
+		k, final := 0, ""
+		gen := func(states []string, started []bool, results []int, outstanding [][]int) (Op, bool) {
+			k++
+			final = states[0]
+			switch {
+			case k <= 2:
+				return Op{K: "start", E: k - 1}, true
+			case k <= 2+max && states[0] == "WAITING":
+				return Op{K: "set", T: 0, S: "LOST"}, true
+			}
+			return Op{}, false
+		}
+		runEval(&d, gen)
+		if k == 3+max && final != "ERROR" {
+			bypass++
+		}
+	}
+	fmt.Printf("two evaluations, one task, %d consecutive losses of the handed-out task: "+
+		"limit bypassed (task not in ERROR, no evaluation failed) in %d of %d trials\n", max, bypass, trials)
+}
+
 func main() {
+	probe := flag.Int("probe2", 0, "diagnostic: N trials of the two-evaluation loss-counter race, then exit")
 	opts := vf.ParseFlags()
 	log.SetOutputter(quietLog{})
-	out := &vf.Output{ID: "C03", Import: "BS.C03.Corr",
+	if *probe > 0 {
+		probeTwoEvaluators(*probe)
+		return
+	}
+	out := &vf.Output{ID: "C03", Import: "BS.C03.Corr", Prelude: prelude(),
 		Rule: "random DAGs of phases (chains, diamonds, multi-root, shuffle groups, mixed with shared/repeated deps), " +
 			"all initial task states; (i) op sequences on the hooked scheduling state, (ii) the real Eval in lock-step, " +
 			"one and two evaluations; non-trivial = sync: at least one Return executed; eval: at least one Run handed out " +
@@ -1018,7 +1140,7 @@ func main() {
 	} else {
 		nSync, nEval1, nEval2 := 110, 120, 60
 		if opts.Tier == "thorough" {
-			nSync, nEval1, nEval2 = 1500, 1500, 800
+			nSync, nEval1, nEval2 = 1000, 1200, 600
 		}
 		nSync, nEval1, nEval2 = nSync*opts.Scale, nEval1*opts.Scale, nEval2*opts.Scale
 		root := vf.NewRand(opts.Seed)
